@@ -81,6 +81,31 @@ def showDeckResult : DeckResult → String
   | .decks l => "decks " ++ (if l.isEmpty then "-" else ";".intercalate (l.map showDeck))
   | .unsupported v => s!"unsupported {v}"
 
+def showAnchor (a : Anchor) : String := s!"{a.pos.x}.{a.pos.y}.{a.pos.z}.{b01 a.valid}"
+
+def showLoco (r : LocoParsed) : String :=
+  s!"n={r.nr} a={if r.anchors.isEmpty then "-" else ";".intercalate (r.anchors.map showAnchor)} V={b01 r.valid}"
+
+def loco2All (m : Mem) : Except PyErr String := do
+  let ids ← loco2IdList m
+  let act ← loco2ActiveIdList m
+  let (_, d) ← loco2Update m
+  pure s!"ids={showNatList ids} act={showNatList act} data={if d.isEmpty then "-" else ";".intercalate (d.map fun (k, a) => s!"{k}:{showAnchor a}")}"
+
+def parseTimings? (s : String) : Option (List LedTiming) :=
+  if s == "-" then some [] else
+  (s.splitOn ";").mapM fun w =>
+    match parseDots? w with
+    | some [t, r, g, b, l, f, ro] => some ⟨t, r, g, b, l, f, ro⟩
+    | _ => none
+
+def parsePolys? (s : String) : Option (List (List Nat × List Nat × List Nat × List Nat × Nat)) :=
+  if s == "-" then some [] else
+  (s.splitOn ";").mapM fun w =>
+    match w.splitOn "/" with
+    | [x, y, z, yaw, d] => do pure ((← parseDots? x), (← parseDots? y), (← parseDots? z), (← parseDots? yaw), (← d.toNat?))
+    | _ => none
+
 def step (_ : Unit) (ws : List String) : Unit × String :=
   let r : String :=
     match ws with
@@ -135,6 +160,22 @@ def step (_ : Unit) (ws : List String) : Unit × String :=
     | ["deck_info", mem] =>
       match ofHex? mem with
       | some m => showExcept showDeckResult (deckQuery m)
+      | none => "bad-op"
+    | ["loco", mem] =>
+      match ofHex? mem with
+      | some m => showExcept showLoco (locoUpdate m)
+      | none => "bad-op"
+    | ["loco2", mem] =>
+      match ofHex? mem with
+      | some m => showExcept id (loco2All m)
+      | none => "bad-op"
+    | ["traj", ps] =>
+      match parsePolys? ps with
+      | some ps => showExcept toHex (trajImage ps)
+      | none => "bad-op"
+    | ["led", ts] =>
+      match parseTimings? ts with
+      | some ts => showExcept toHex (ledImage ts)
       | none => "bad-op"
     | _ => "bad-op"
   ((), r)
